@@ -165,7 +165,8 @@ def _run_wellformed(ctx, res, S):
             n_samples = 1
         else:
             n_samples = int(rng.integers(1, 400 if not thorough else 3000))
-        seed = int(rng.integers(0, 2**31))
+        # 'for all seeds': the special values 0, 1 and the largest 32/63-bit seeds come first, then random ones
+        seed = [0, 1, 2**32 - 1, 2**63 - 1][k % 4] if k < 24 else int(rng.integers(0, 2**31))
         F = np.stack([_fractions(rng, family, M) for _ in range(N)])
         O = impl.random_rotations(rng, N * M).reshape(N, M, 3, 3)
         as_list = (k % 7 == 3)
